@@ -46,6 +46,50 @@ type Spec struct {
 	Observed   string `json:"observed,omitempty"`
 	Describe   string `json:"describe,omitempty"`
 	CoqTermLen int    `json:"coq_term_len,omitempty"`
+	// seq (seq.go): a sequence of steps run on ONE set of parsed objects (ABI = their definitions)
+	Steps []*Spec `json:"steps,omitempty"`
+	Obj   int     `json:"obj,omitempty"`   // a step of a sequence: index into the sequence's ABI of the entry it runs on
+	Mode  string  `json:"mode,omitempty"`  // seq: how the objects are built (own | shared | json)
+	Par   int     `json:"par,omitempty"`   // seq: goroutines re-running the steps on the same objects
+	First bool    `json:"first,omitempty"` // seq: the goroutines run before the sequential pass (objects not yet validated)
+	What  string  `json:"what,omitempty"`  // filled in when a Go-side oracle fails on the case
+	Changed []string `json:"changed,omitempty"`
+
+	// a step of a sequence runs on these shared objects instead of freshly built ones
+	ae      *abi.Entry
+	aabi    abi.ABI
+	coqEnt  string // Coq name bound to the entry / entries by the enclosing sequence term
+	coqEnts []string
+	panicked bool
+	// retain re-projects the raw values the implementation returned for this step (selector / hash slices,
+	// decoded trees, call data); a sequence calls it again after all later steps have run
+	retain    func() string
+	retained0 string
+}
+
+// abiEntry: the pkg/abi object the case runs on -- fresh for a stand-alone case, the shared one inside a sequence
+func (s *Spec) abiEntry() *abi.Entry {
+	if s.ae != nil {
+		return s.ae
+	}
+	return s.Entry.Abi()
+}
+
+func (s *Spec) keep(f func() string) {
+	s.retain = nil
+	if s.aabi == nil { // only sequences look at retained results
+		return
+	}
+	if p, _ := safely(func() { s.retained0 = f() }); !p {
+		s.retain = f
+	}
+}
+
+func (s *Spec) entryCoq() string {
+	if s.coqEnt != "" {
+		return s.coqEnt
+	}
+	return s.Entry.Coq()
 }
 
 func class(err error, panicked bool) int {
@@ -97,12 +141,14 @@ func run(s *Spec, st *cv.Stats) string {
 		return runEvent(s, st)
 	case "err":
 		return runErr(s, st)
+	case "seq":
+		return runSeq(s, st)
 	}
 	panic("unknown case kind " + s.Kind)
 }
 
 func runSig(s *Spec, st *cv.Stats) string {
-	ae := s.Entry.Abi()
+	ae := s.abiEntry()
 	var sig string
 	var err error
 	var sel, top []byte
@@ -112,15 +158,16 @@ func runSig(s *Spec, st *cv.Stats) string {
 		top = ae.SignatureHashBytes()
 	})
 	c := class(err, p)
+	s.keep(func() string { return hex.EncodeToString(sel) + "/" + hex.EncodeToString(top) })
 	s.Describe = s.Entry.Describe()
 	s.Signature = s.Entry.Sig()
 	s.Observed = fmt.Sprintf("class=%d signature=%q selector=%s hash=%s %s", c, sig, hex.EncodeToString(sel), hex.EncodeToString(top), msg)
 	st.Hit(fmt.Sprintf("sig:class=%d", c))
-	return fmt.Sprintf("CSig %s %d %s %s %s", s.Entry.Coq(), c, cv.CoqBytes([]byte(sig)), cv.CoqBytes(sel), cv.CoqBytes(top))
+	return fmt.Sprintf("CSig %s %d %s %s %s", s.entryCoq(), c, cv.CoqBytes([]byte(sig)), cv.CoqBytes(sel), cv.CoqBytes(top))
 }
 
 func runCall(s *Spec, st *cv.Stats) string {
-	ae := s.Entry.Abi()
+	ae := s.abiEntry()
 	var enc []byte
 	var err, derr error
 	var dec *abi.ComponentValue
@@ -143,15 +190,35 @@ func runCall(s *Spec, st *cv.Stats) string {
 			decV = proj(dec)
 		}
 	}
+	s.keep(func() string { return hex.EncodeToString(enc) + "/" + proj(dec).Describe() })
 	s.Describe = s.Entry.Describe() + " value=" + s.Value.Describe()
 	s.Signature = s.Entry.Sig()
+	// the other EncodeCallData* entry points (arguments as Go values / as JSON) must produce the same call data
+	if ecls == 0 && s.Exact {
+		var encV, encJ []byte
+		var errV, errJ error
+		x := ext(s.Entry.tuple(), s.Value)
+		js, _ := json.Marshal(x)
+		pv, _ := safely(func() {
+			encV, errV = ae.EncodeCallDataValues(x)
+			encJ, errJ = ae.EncodeCallDataJSON(js)
+		})
+		if pv || errV != nil || errJ != nil || string(encV) != string(enc) || string(encJ) != string(enc) {
+			msg += fmt.Sprintf(" EncodeCallDataValues: %s err=%v; EncodeCallDataJSON: %s err=%v (panic=%v)", short(encV), errV, short(encJ), errJ, pv)
+			st.ImplFailures = append(st.ImplFailures, map[string]interface{}{
+				"what": "EncodeCallDataValues / EncodeCallDataJSON do not produce the call data EncodeCallData produces for the same arguments (selector ++ enc(arguments))",
+				"key":  s.Key, "kind": s.Kind, "class": s.Class, "entry": s.Entry, "value": s.Value, "exact": s.Exact,
+				"describe": s.Describe, "observed": fmt.Sprintf("EncodeCallData=%s%s", short(enc), msg)})
+		}
+		st.Hit("call:values+json")
+	}
 	s.Observed = fmt.Sprintf("encode class=%d data=%s decode class=%d value=%s %s", ecls, short(enc), dcls, decV.Describe(), msg)
 	st.Hit(fmt.Sprintf("call:encode=%d,decode=%d", ecls, dcls))
-	return fmt.Sprintf("CCall %s %s %v %d %s %d %s", s.Entry.Coq(), s.Value.Coq(), s.Exact, ecls, cv.Compress(enc).Coq(), dcls, decV.Coq())
+	return fmt.Sprintf("CCall %s %s %v %d %s %d %s", s.entryCoq(), s.Value.Coq(), s.Exact, ecls, cv.Compress(enc).Coq(), dcls, decV.Coq())
 }
 
 func runDec(s *Spec, st *cv.Stats) string {
-	ae := s.Entry.Abi()
+	ae := s.abiEntry()
 	var dec *abi.ComponentValue
 	var err error
 	p, msg := safely(func() { dec, err = ae.DecodeCallData(s.Data) })
@@ -160,11 +227,14 @@ func runDec(s *Spec, st *cv.Stats) string {
 	if c == 0 {
 		decV = proj(dec)
 	}
+	if c == 0 {
+		s.keep(func() string { return proj(dec).Describe() })
+	}
 	s.Describe = s.Entry.Describe() + " data=" + short(s.Data)
 	s.Signature = s.Entry.Sig()
 	s.Observed = fmt.Sprintf("class=%d value=%s %s", c, decV.Describe(), msg)
 	st.Hit(fmt.Sprintf("dec:%s:class=%d", s.Class, c))
-	return fmt.Sprintf("CDec %s %s %d %s", s.Entry.Coq(), cv.Compress(s.Data).Coq(), c, decV.Coq())
+	return fmt.Sprintf("CDec %s %s %d %s", s.entryCoq(), cv.Compress(s.Data).Coq(), c, decV.Coq())
 }
 
 func expectCoqEvent(s *Spec) string {
@@ -178,7 +248,7 @@ func expectCoqEvent(s *Spec) string {
 }
 
 func runEvent(s *Spec, st *cv.Stats) string {
-	ae := s.Entry.Abi()
+	ae := s.abiEntry()
 	topics := make([]ethtypes.HexBytes0xPrefix, len(s.Topics))
 	for i, t := range s.Topics {
 		topics[i] = ethtypes.HexBytes0xPrefix(t)
@@ -204,6 +274,17 @@ func runEvent(s *Spec, st *cv.Stats) string {
 			desc = append(desc, ch.Component.String()+" "+ch.Component.KeyName()+"="+v.Describe())
 		}
 	}
+	if c == 0 && dec != nil {
+		s.keep(func() string {
+			d := proj(dec).Describe()
+			for _, ch := range dec.Children {
+				if ch != nil && ch.Component != nil {
+					d += " " + ch.Component.String()
+				}
+			}
+			return d
+		})
+	}
 	tl := make([]string, len(s.Topics))
 	for i, t := range s.Topics {
 		tl[i] = hex.EncodeToString(t)
@@ -212,7 +293,7 @@ func runEvent(s *Spec, st *cv.Stats) string {
 	s.Signature = s.Entry.Sig()
 	s.Observed = fmt.Sprintf("class=%d children=[%s] %s", c, strings.Join(desc, "; "), msg)
 	st.Hit(fmt.Sprintf("event:%s:class=%d", s.Class, c))
-	return fmt.Sprintf("CEvent %s %s %s %d [%s] %s %v", s.Entry.Coq(), topicsCoq(s.Topics), cv.Compress(s.Data).Coq(), c,
+	return fmt.Sprintf("CEvent %s %s %s %d [%s] %s %v", s.entryCoq(), topicsCoq(s.Topics), cv.Compress(s.Data).Coq(), c,
 		strings.Join(outs, "; "), expectCoqEvent(s), !s.Lenient)
 }
 
@@ -248,9 +329,15 @@ func runErr(s *Spec, st *cv.Stats) string {
 	ents := make([]string, len(s.ABI))
 	descs := make([]string, len(s.ABI))
 	for i, e := range s.ABI {
-		a = append(a, e.Abi())
+		if s.aabi == nil {
+			a = append(a, e.Abi())
+		}
 		ents[i] = e.Coq()
 		descs[i] = e.Describe()
+	}
+	if s.aabi != nil {
+		a = s.aabi
+		copy(ents, s.coqEnts)
 	}
 	var en *abi.Entry
 	var cvv *abi.ComponentValue
@@ -285,6 +372,9 @@ func runErr(s *Spec, st *cv.Stats) string {
 			}
 			fmtc = "(Some [" + strings.Join(ps, "; ") + "])"
 		}
+	}
+	if c == 0 && ok && en != nil {
+		s.keep(func() string { sg, _ := en.Signature(); return sg + " " + proj(cvv).Describe() })
 	}
 	exp := "None"
 	switch s.Expect {
